@@ -207,7 +207,8 @@ Fixpoint name_groups (N : Z) (i : nat) (gss : list (list Z)) : list group :=
 (* =========================================================================================
    No hidden state: the table (method of class Cell, attributes of `self` it writes), regenerated from nml.py on every
    run (impl/c13_impl.py self_writes), must show no write for the lookup / query / sectioning methods, except the two
-   documented caches.  (The models above are pure functions of the cell's segments and groups.)
+   documented caches; its last row lists the class-level attributes of Cell bound to a mutable container (state
+   shared by all cells, threads included): only generateDS's member_data_items_ is allowed.  (The models above are pure functions of the cell's segments and groups.)
    ========================================================================================= *)
 Definition tracked_methods : list string :=
   ["get_segment"; "get_segments_by_substring"; "get_actual_proximal"; "get_segment_length"; "get_segment_surface_area";
@@ -215,11 +216,14 @@ Definition tracked_methods : list string :=
    "get_segment_group"; "get_segment_groups_by_substring"; "get_segment_adjacency_list"; "get_graph"; "get_distance";
    "get_all_distances_from_segment"; "get_segments_at_distance"; "get_branching_points"; "get_extremeties";
    "get_segment_location_info"; "get_morphology_root"; "create_unbranched_segment_group_branches"; "__sectionise";
-   "add_segment_group"; "add_unbranched_segment_group"; "reorder_segment_groups"]%string.
+   "add_segment_group"; "add_unbranched_segment_group"; "reorder_segment_groups";
+   "<class-level mutable attributes>"]%string.
 
 Definition allowed_writes (m : string) : list string :=
   if String.eqb m "get_segment_adjacency_list" then ["adjacency_list"%string]
-  else if String.eqb m "get_graph" then ["cell_graph"%string] else [].
+  else if String.eqb m "get_graph" then ["cell_graph"%string]
+  else if String.eqb m "<class-level mutable attributes>" then ["member_data_items_"; "validate_NmlId_patterns_"]%string   (* generateDS metadata, read-only *)
+  else [].
 
 Fixpoint slookup (t : list (string * list string)) (m : string) : option (list string) :=
   match t with
